@@ -88,14 +88,14 @@ var (
 	floatAnchors = []float64{math.Inf(-1), -1e300, -1.5, 0, 5e-324, 0.1, float64(float32(0.1)), 1e300, math.Inf(1)}
 
 	charMaps = [][]rune{
-		{0, 'X', '7', ' ', '"', '\\', '(', ')', ',', 'É', 'Y', '^', '$', ':'},
-		{0, 'X', '7', '\t', '"', '\\', '(', ')', ',', '世', 'Y', '^', '$', ':'},
-		{0, 'a', '0', '\n', '"', '\\', '(', ')', ',', '😀', 'B', '^', '$', ':'},
-		{0, 'q', '9', '\r', '"', '\\', '(', ')', ',', 'ß', 'Y', '^', '$', ':'},
+		{0, 'X', '7', ' ', '"', '\\', '(', ')', ',', 'É', 'Y', '^', '$', ':', 'l', 'i', 'm', 't'},
+		{0, 'X', '7', '\t', '"', '\\', '(', ')', ',', '世', 'Y', '^', '$', ':', 'l', 'i', 'm', 't'},
+		{0, 'a', '0', '\n', '"', '\\', '(', ')', ',', '😀', 'B', '^', '$', ':', 'l', 'i', 'm', 't'},
+		{0, 'q', '9', '\r', '"', '\\', '(', ')', ',', 'ß', 'Y', '^', '$', ':', 'l', 'i', 'm', 't'},
 		// white-space-like runes that the documented grammar does not treat as blanks: plain characters
-		{0, 'X', '7', ' ', '"', '\\', '(', ')', ',', '\u00a0', 'Y', '^', '$', ':'},
-		{0, 'X', '7', '\t', '"', '\\', '(', ')', ',', '\u3000', 'Y', '^', '$', ':'},
-		{0, 'a', '0', ' ', '"', '\\', '(', ')', ',', '\u2028', 'B', '^', '$', ':'},
+		{0, 'X', '7', ' ', '"', '\\', '(', ')', ',', '\u00a0', 'Y', '^', '$', ':', 'l', 'i', 'm', 't'},
+		{0, 'X', '7', '\t', '"', '\\', '(', ')', ',', '\u3000', 'Y', '^', '$', ':', 'l', 'i', 'm', 't'},
+		{0, 'a', '0', ' ', '"', '\\', '(', ')', ',', '\u2028', 'B', '^', '$', ':', 'l', 'i', 'm', 't'},
 	}
 
 	opIDs = map[string]uint8{
